@@ -149,8 +149,16 @@ func (m *Method) Call(self Object, args Tuple) (Object, error) {
 			return nil, ExceptionNewf(TypeError, "%s() takes exactly 1 argument (%d given)", m.Name, len(args))
 		}
 		return f(self, args[0])
+	case InternalMethod:
+		return nil, m.internalCallError()
 	}
 	panic(fmt.Sprintf("Unknown method type: %T", m.method))
+}
+
+// Error returned when an internal method (globals, locals, eval, ...)
+// is called without the calling frame which only the vm can supply
+func (m *Method) internalCallError() error {
+	return ExceptionNewf(TypeError, "%s() needs the frame of its caller so it can only be called directly", m.Name)
 }
 
 // Call the method with the given arguments
@@ -165,6 +173,8 @@ func (m *Method) CallWithKeywords(self Object, args Tuple, kwargs StringDict) (O
 		func(Object) (Object, error),
 		func(Object, Object) (Object, error):
 		return nil, ExceptionNewf(TypeError, "%s() takes no keyword arguments", m.Name)
+	case InternalMethod:
+		return nil, m.internalCallError()
 	}
 	panic(fmt.Sprintf("Unknown method type: %T", m.method))
 }
